@@ -31,6 +31,13 @@ type Config struct {
 	EnumAt func(tier string, i int) []int
 	// Random part: default number of runs per tier (overridden by VERIF_RUNS).
 	Runs map[string]int
+	// Systematic schedule enumeration: for each root prefix (scenario selector
+	// draws) the driver enumerates depth-first every continuation of the tape
+	// (all draws after the root are enumerated, so such scenarios must draw
+	// only what is to be enumerated, typically scheduling choices under a
+	// preemption bound). ExhaustMax caps the leaves per root.
+	ExhaustRoots func(tier string) [][]int
+	ExhaustMax   map[string]int
 	// LeakSig: violation signature used when goroutines of the bubble are still
 	// blocked after the scenario returned. Empty = that is a harness error.
 	LeakSig string
@@ -100,6 +107,9 @@ type Result struct {
 	LastSeed     uint64            `json:"last_run_seed"`
 	Replay       *ReplayResult     `json:"replay,omitempty"`
 	Budgeted     bool              `json:"stopped_by_budget"`
+	ExhaustRuns  int               `json:"exhaust_runs"`
+	ExhaustRoots int               `json:"exhaust_roots"`
+	ExhaustDone  int               `json:"exhaust_roots_completed"`
 }
 
 // ReplayResult reports a replay.
@@ -482,6 +492,53 @@ func Main(t *testing.T, cfg Config) {
 			}
 		}
 		res.EnumComplete = done
+	}
+	if ok && cfg.ExhaustRoots != nil && os.Getenv("VERIF_NOENUM") == "" {
+		roots := cfg.ExhaustRoots(tier)
+		if shard == 0 {
+			res.ExhaustRoots = len(roots)
+		}
+		maxLeaves := cfg.ExhaustMax[tier]
+		if maxLeaves == 0 {
+			maxLeaves = 20000
+		}
+	rootLoop:
+		for ri, root := range roots {
+			if ri%nshards != shard {
+				continue
+			}
+			prefix := append([]int(nil), root...)
+			leaves := 0
+			for {
+				if over() || leaves >= maxLeaves {
+					break
+				}
+				seed := Mix(base, cfg.Prop+"/exhaust", uint64(ri))
+				r := d.runOnce(seed, NewEnumTape(prefix), false)
+				leaves++
+				res.ExhaustRuns++
+				if !account(r, true, ri) {
+					ok = false
+					break rootLoop
+				}
+				rec := r.Tape.Rec
+				i := len(rec) - 1
+				for ; i >= len(root); i-- {
+					if rec[i].V+1 < rec[i].N {
+						break
+					}
+				}
+				if i < len(root) {
+					res.ExhaustDone++
+					break
+				}
+				prefix = prefix[:0]
+				for j := 0; j < i; j++ {
+					prefix = append(prefix, rec[j].V)
+				}
+				prefix = append(prefix, rec[i].V+1)
+			}
+		}
 	}
 	if ok {
 		n := envInt("VERIF_RUNS", cfg.Runs[tier])
